@@ -80,17 +80,17 @@ type c07Scn struct {
 	quick    explore.Bounds
 	thorough explore.Bounds
 	twin     explore.Bounds // thorough tier: second exploration of the same body under delay bounding (P == 0: none)
-	thOnly   bool // thorough tier only (more than 4 environment events)
+	thOnly   bool           // thorough tier only (more than 4 environment events)
 }
 
 // ---------------------------------------------------------------------------------------------
 // world = fakes + observation records of one execution
 
 type c07Act struct {
-	lo, hi       int64 // virtual time of delivery / of the handler's next observable action
-	sDel, sDone  int
-	done, defin  bool
-	what         string
+	lo, hi      int64 // virtual time of delivery / of the handler's next observable action
+	sDel, sDone int
+	done, defin bool
+	what        string
 }
 
 type c07DgRec struct {
@@ -162,9 +162,9 @@ type c07Ent struct {
 }
 
 type c07World struct {
-	e  *vsched.Exec
-	sc *c07Scn
-	m  *udpSessionManager
+	e       *vsched.Exec
+	sc      *c07Scn
+	m       *udpSessionManager
 	dialing int // slow dials in flight (virtual sleeps inside UDP())
 
 	seq     int
@@ -487,6 +487,17 @@ func (l *c07Log) New(id uint32, addr string) {
 func (l *c07Log) Close(id uint32, err error) {
 	w := l.w
 	ev := &c07Ev{kind: "close", id: id, err: err, t: w.e.Now(), seq: w.next(), ent: w.ent(w.peek(id)), afterLoss: w.lost}
+	if ev.ent == nil || ev.ent.closes > 0 {
+		// the entry may leave the table before its Close event is emitted (the property does not
+		// order the two: benign change C07-b5): the event then belongs to the oldest entry of that
+		// id that has not seen one
+		for _, en := range w.entList {
+			if en.id == id && en.closes == 0 && (ev.ent == nil || en != ev.ent) {
+				ev.ent = en
+				break
+			}
+		}
+	}
 	w.evs = append(w.evs, ev)
 	w.logf("Close s%d err=%v", id, err)
 	if w.cur != nil && w.cur.id == id {
@@ -693,7 +704,12 @@ func (w *c07World) quiescent(final bool) {
 				last = a.hi
 			}
 		}
-		if last >= 0 && T > last+c07Timeout+c07Sweep {
+		// "within one sweep interval" is a statement about the code, not about how late a stalled
+		// goroutine may run: every stall in this schedule (virtual time passing although a thread was
+		// runnable) may cost the time it lasted plus one more sweep. (A sweeper that skips a tick while the previous sweep is
+		// still running is as good as one whose ticker buffers that tick: benign change C07-b6.)
+		if last >= 0 && T > last+c07Timeout+c07Sweep*int64(1+e.Stalls())+e.StallNS() {
+			e.Logf("expire: T=%d last=%d stalls=%d (%d ns)", T, last, e.Stalls(), e.StallNS())
 			e.Fail("C07 expire: session %d had no traffic for more than idle timeout + one sweep interval and is still open", id)
 		}
 	}
